@@ -313,10 +313,10 @@ func init() {
 				n = 20000
 			}
 			hosts := []string{"h", "host.example", "box-1"}
-			prefixes := []string{"", "pfx.", "a-b."}
+			prefixes := []string{"", "pfx.", "a-b.", "p%d."}
 			for i := 0; i < n; i++ {
 				ms := genStore(g.r, storeGenOpts{maxMetrics: 5, noSeparator: g.r.chance(3, 4), utf8Only: true})
-				g.emit("fmt", hx(hosts[g.r.intn(3)]), hx(prefixes[g.r.intn(3)]), strconv.Itoa(g.r.intn(2)), encodeStore(ms))
+				g.emit("fmt", hx(hosts[g.r.intn(3)]), hx(prefixes[g.r.intn(4)]), strconv.Itoa(g.r.intn(2)), encodeStore(ms))
 			}
 		},
 		run: c22Run,
